@@ -1,7 +1,7 @@
 """Abstractions (proven contracts) and executor hooks shared by the checks."""
 from engine_m import oblig
 from engine_m.models import Abstraction, BoundAbstraction
-from engine_m.sym import En, IV, Opaque, mk_int
+from engine_m.sym import En, IV, Agg, Opaque, mk_int
 import z3
 
 def _d2d(ex):
@@ -23,7 +23,22 @@ oblig.ABSTRACTION_TABLE['days_to_date/bound'] = lambda ex: BoundAbstraction('day
 def _dtd_build(ex, args, res):
     ok, k = res
     disc = IV(z3.If(ok.t, 0, 1), 'isize', 0, 1)
-    return En(disc, {0: [k], 1: [Opaque('AstrolabeError')]}, 'Result')
+    # c01_date_to_days_holds shows that every error is AstrolabeError::OutOfRange; its fields are not modelled here
+    err = En(mk_int(0, 'isize'), {0: [Opaque('OutOfRange')]}, 'AstrolabeError')
+    return En(disc, {0: [k], 1: [err]}, 'Result')
 oblig.ABSTRACTION_TABLE['date_to_days'] = lambda ex: Abstraction('date_to_days', 'contract_date_to_days', [('ok', 'bool'), ('k', 'i32', -2**31, 2**31 - 1)], build=_dtd_build)
 # the closed-form day count as an uninterpreted pure function (sound over-approximation; used where only congruence matters)
 oblig.ABSTRACTION_TABLE['spec_rd/uf'] = lambda ex: Abstraction('spec_rd', None, [('rd', 'i64', -2**62, 2**62)], always=True)
+
+# the two instant <-> (day, nanoseconds) kernels through their contracts (c03_*_contract_holds, discharged in the same run)
+def _n2dn_build(ex, args, res):
+    ok, d, n = res
+    disc = IV(z3.If(ok.t, 0, 1), 'isize', 0, 1)
+    err = En(mk_int(0, 'isize'), {0: [Opaque('OutOfRange')]}, 'AstrolabeError')
+    return En(disc, {0: [Agg([d, n])], 1: [err]}, 'Result')
+oblig.ABSTRACTION_TABLE['nanos_to_days_nanos'] = lambda ex: Abstraction('nanos_to_days_nanos', 'contract_nanos_to_days_nanos',
+    [('ok', 'bool'), ('d', 'i32', -2**31, 2**31 - 1), ('n', 'u64', 0, 86_400_000_000_000 - 1)], build=_n2dn_build)
+oblig.ABSTRACTION_TABLE['days_nanos_to_nanos'] = lambda ex: Abstraction('days_nanos_to_nanos', 'contract_days_nanos_to_nanos', [('t', 'i128', -2**127, 2**127 - 1)])
+
+oblig.ABSTRACTION_TABLE['nanos_to_time'] = lambda ex: Abstraction('nanos_to_time', 'contract_nanos_to_time',
+    [('h', 'u32', 0, 2**32 - 1), ('m', 'u32', 0, 2**32 - 1), ('s', 'u32', 0, 2**32 - 1)])
